@@ -172,7 +172,11 @@ def run_case(src):
 
 M_KINDS = ["NONE", "CAMEL", "LOWER", "DICT", "CHAIN"]
 M_WHERE = ["class", "arg"]
-M_NESTED = ["sref", "array-sref", "map-sref", "sref-in-sref", "ref", "ref-own-mapper", "array-ref"]
+M_NESTED = ["sref", "array-sref", "map-sref", "sref-in-sref", "ref", "ref-own-mapper", "array-ref",
+            # entries of a LIST of fields (convert_to_schema's list branch): positional items, multi-field wrappers
+            "array-positional-sref", "tuple-positional-sref", "anyof-sref", "oneof-sref", "allof-sref"]
+# (NotField needs no cell: a value of a NotField is by definition not one of the listed structures, and a dict value of
+# a NotField is not serializable at all -- C05's subject)
 
 
 def matrix_case(mp, where, holder_renamed, kind, keys_renamed):
@@ -187,6 +191,16 @@ def matrix_case(mp, where, holder_renamed, kind, keys_renamed):
         decl, inst = "Array[StructureReference(%s)]" % inner, "[%s, %s]" % (val, val)
     elif kind == "map-sref":
         decl, inst = "Map[String, StructureReference(%s)]" % inner, "{'some_key': %s}" % val
+    elif kind == "array-positional-sref":
+        decl, inst = "Array(items=[StructureReference(%s), Integer()])" % inner, "[%s, 7]" % val
+    elif kind == "tuple-positional-sref":
+        decl, inst = "Tuple(items=[Integer(), StructureReference(%s)])" % inner, "(7, %s)" % val
+    elif kind == "anyof-sref":
+        decl, inst = "AnyOf([Integer(), StructureReference(%s)])" % inner, val
+    elif kind == "oneof-sref":
+        decl, inst = "OneOf([StructureReference(%s), Integer()])" % inner, val
+    elif kind == "allof-sref":
+        decl, inst = "AllOf([StructureReference(%s)])" % inner, val
     elif kind == "sref-in-sref":
         decl = "StructureReference(inner_part=StructureReference(%s), note_text=String())" % inner
         inst = "{'inner_part': %s, 'note_text': 'n'}" % val
